@@ -563,16 +563,201 @@ fn stock_behaviours(c: u64, port: u16) -> Vec<stock::StockSrv> {
     }
     let mut out = vec![];
     for r in &replies {
-        out.push(stock::StockSrv { proto: 0, udp_reply: *r, conn: stock::Conn::Refused, tcp_reply: None, port });
+        out.push(stock::StockSrv { proto: 0, udp_reply: *r, conn: stock::Conn::Refused, tcp_reply: None, port, nx: false });
     }
     for proto in [1u8, 2] {
         for conn in &conns {
             for r in &replies {
-                out.push(stock::StockSrv { proto, udp_reply: None, conn: *conn, tcp_reply: *r, port });
+                out.push(stock::StockSrv { proto, udp_reply: None, conn: *conn, tcp_reply: *r, port, nx: false });
             }
         }
     }
     out
+}
+
+// ------------------------------------------------------------------------------------------
+// family (vii): the production construction path Resolver::builder_with_config(..).with_options(..).build()
+
+#[derive(Clone, Debug)]
+struct CtorProbe {
+    name: &'static str,
+    /// (behaviour, trust_negative_responses)
+    servers: Vec<(stock::StockSrv, bool)>,
+    /// (timeout, connect_timeout, attempts, num_concurrent_reqs) - same-typed neighbours differ
+    vals: (u64, u64, usize, usize),
+    deny_answers: Vec<&'static str>,
+    allow_answers: Vec<&'static str>,
+}
+
+struct CtorObs {
+    elapsed: u64,
+    res: Res,
+    log: Vec<Ev>,
+    connect_timeouts: Vec<Option<u64>>,
+    requests: Vec<(usize, bool, bool, bool, u16)>,
+    binds: Vec<Option<std::net::SocketAddr>>,
+}
+
+const CTOR_PORT: u16 = 5353;
+const CTOR_QNAME: &str = "wwwabcdefghijklmnopqrstuvwxyz.abcdefghijklmnopqrstuvwxyz.example.";
+
+fn ctor_run(p: &CtorProbe) -> CtorObs {
+    use hickory_resolver::config::{ResolveHosts, ResolverConfig};
+    vsim::install_hook_clock_tokio();
+    let rt = vsim::rt();
+    let out = rt.block_on(async {
+        let sim = stock::SimRt::new(p.servers.iter().map(|s| s.0.clone()).collect());
+        let mut opts = ResolverOpts::default();
+        opts.timeout = Duration::from_millis(p.vals.0);
+        opts.connect_timeout = Duration::from_millis(p.vals.1);
+        opts.attempts = p.vals.2;
+        opts.num_concurrent_reqs = p.vals.3;
+        opts.server_ordering_strategy = ServerOrderingStrategy::UserProvidedOrder;
+        opts.edns0 = false;
+        opts.case_randomization = true;
+        opts.use_hosts_file = ResolveHosts::Never;
+        opts.cache_size = 0;
+        opts.deny_answers = p.deny_answers.iter().map(|s| s.parse().unwrap()).collect();
+        opts.allow_answers = p.allow_answers.iter().map(|s| s.parse().unwrap()).collect();
+        let name_servers: Vec<NameServerConfig> = p
+            .servers
+            .iter()
+            .enumerate()
+            .map(|(i, (s, trust))| {
+                let ip = server_ip(i);
+                let mut cfg = match s.proto {
+                    0 => NameServerConfig::udp(ip),
+                    1 => NameServerConfig::tcp(ip),
+                    _ => NameServerConfig::udp_and_tcp(ip),
+                };
+                cfg.trust_negative_responses = *trust;
+                for c in cfg.connections.iter_mut() {
+                    c.port = CTOR_PORT;
+                    c.bind_addr = Some("198.18.0.9:0".parse().unwrap());
+                }
+                cfg
+            })
+            .collect();
+        let resolver = hickory_resolver::Resolver::builder_with_config(ResolverConfig::from_name_servers(name_servers), sim.clone())
+            .with_options(opts)
+            .build()
+            .expect("resolver");
+        sim.st.lock().unwrap().t0 = tokio::time::Instant::now();
+        let start = sim.ms();
+        let r = tokio::time::timeout(Duration::from_millis(HORIZON_MS), resolver.lookup(CTOR_QNAME, RecordType::A)).await;
+        let elapsed = sim.ms() - start;
+        let res = match r {
+            Err(_) => Res::Other("hung".into()),
+            Ok(Ok(lookup)) => lookup
+                .answers()
+                .iter()
+                .find_map(|rec| match &rec.data {
+                    RData::A(a) if a.0.octets()[0] == 10 => Some(Res::Answer { srv: a.0.octets()[3] as usize - 1, tcp: a.0.octets()[1] == 1, tag: a.0.octets()[2], tc: false }),
+                    _ => None,
+                })
+                .unwrap_or(Res::OkEmpty { tc: false, rcode: "noerror".into() }),
+            Ok(Err(e)) => classify(Some(Err(e))),
+        };
+        let g = sim.st.lock().unwrap();
+        CtorObs { elapsed, res, log: g.log.clone(), connect_timeouts: g.connect_timeouts_seen.clone(), requests: g.requests_seen.clone(), binds: g.binds_seen.clone() }
+    });
+    drop(rt);
+    out
+}
+
+fn ctor_probes() -> Vec<CtorProbe> {
+    let udp = |reply: stock::Reply, nx: bool| stock::StockSrv { proto: 0, udp_reply: reply, conn: stock::Conn::Refused, tcp_reply: None, port: CTOR_PORT, nx };
+    let tcp_hole = stock::StockSrv { proto: 1, udp_reply: None, conn: stock::Conn::BlackHole, tcp_reply: Some(10), port: CTOR_PORT, nx: false };
+    let mut out = vec![];
+    for vals in [(700u64, 300u64, 1usize, 3usize), (900, 500, 2, 2)] {
+        let mk = |name: &'static str, servers: Vec<(stock::StockSrv, bool)>| CtorProbe { name, servers, vals, deny_answers: vec![], allow_answers: vec![] };
+        out.push(mk("silent-udp", vec![(udp(None, false), true)]));
+        out.push(mk("black-holed-tcp", vec![(tcp_hole.clone(), true)]));
+        out.push(mk("four-silent-udp", (0..4).map(|_| (udp(None, false), true)).collect()));
+        out.push(mk("untrusted-nx-then-answer", vec![(udp(Some(10), true), false), (udp(Some(200), false), true)]));
+        out.push(mk("trusted-nx-then-answer", vec![(udp(Some(10), true), true), (udp(Some(200), false), true)]));
+        out.push(mk("swapped-trust-flags", vec![(udp(Some(200), false), false), (udp(Some(10), true), true)]));
+        let mut d = mk("answer-denied", vec![(udp(Some(10), false), true)]);
+        d.deny_answers = vec!["10.0.0.0/16"];
+        out.push(d.clone());
+        d.name = "answer-denied-but-allowed";
+        // the simulated server answers 10.<tcp>.<tag of the name>.<server+1>; the tag of CTOR_QNAME is 3
+        d.allow_answers = vec!["10.0.3.1/32"];
+        out.push(d);
+    }
+    out
+}
+
+fn judge_ctor(p: &CtorProbe, o: &CtorObs, l: &mut Local) {
+    const PATH: &str = "Resolver::builder_with_config";
+    let (t, c, attempts, conc) = p.vals;
+    let wit = || {
+        json!({
+            "family": "ctor", "probe": p.name, "timeout_ms": t, "connect_timeout_ms": c, "attempts": attempts, "num_concurrent_reqs": conc,
+            "deny_answers": p.deny_answers, "allow_answers": p.allow_answers,
+            "servers": p.servers.iter().map(|s| json!({"behaviour": s.0.to_json(), "trust_negative_responses": s.1})).collect::<Vec<_>>(),
+            "observed": {"elapsed_ms": o.elapsed, "result": format!("{:?}", o.res), "connect_tcp_timeouts_ms": o.connect_timeouts,
+                         "log": o.log.iter().map(|e| e.to_json()).collect::<Vec<_>>()},
+        })
+    };
+    let bad = |knob: &str, what: String, l: &mut Local| l.violation(&format!("knob-not-effective:{knob}:{PATH}"), &what, &wit);
+    match p.name {
+        "silent-udp" => {
+            let want = (attempts as u64 + 1) * t;
+            if o.elapsed != want || o.res != Res::Timeout {
+                bad("timeout-or-attempts", format!("one silent server: {:?} after {} ms, expected a timeout after (attempts+1) x timeout = {want} ms", o.res, o.elapsed), l);
+            }
+        }
+        "black-holed-tcp" => {
+            if o.connect_timeouts.is_empty() || o.connect_timeouts.iter().any(|x| *x != Some(c)) {
+                bad("connect_timeout", format!("connect_tcp was given {:?}, configured connect_timeout {c} ms", o.connect_timeouts), l);
+            }
+            if o.elapsed != (attempts as u64 + 1) * c {
+                bad("connect_timeout-or-attempts", format!("black-holed TCP server: ended after {} ms, expected (attempts+1) x connect_timeout = {}", o.elapsed, (attempts as u64 + 1) * c), l);
+            }
+        }
+        "four-silent-udp" => {
+            let first: BTreeSet<usize> = o.log.iter().filter(|e| !e.connect && e.start == 0).map(|e| e.srv).collect();
+            let want: BTreeSet<usize> = (0..conc).collect();
+            if first != want {
+                bad("num_concurrent_reqs-or-ordering", format!("servers asked at t=0: {first:?}, expected the first {conc} in the configured order"), l);
+            }
+        }
+        "untrusted-nx-then-answer" => {
+            if !matches!(o.res, Res::Answer { .. }) {
+                bad("trust_negative_responses", format!("an untrusted NXDOMAIN next to an answering server gave {:?}", o.res), l);
+            }
+        }
+        "trusted-nx-then-answer" | "swapped-trust-flags" => {
+            if !matches!(o.res, Res::Nx { .. }) {
+                bad("trust_negative_responses", format!("a trusted NXDOMAIN (10 ms) before the other (here: untrusted or trusted) server's answer (200 ms) gave {:?}", o.res), l);
+            }
+        }
+        "answer-denied" => {
+            if matches!(o.res, Res::Answer { .. }) {
+                bad("deny_answers", format!("an address inside deny_answers was returned: {:?}", o.res), l);
+            }
+        }
+        _ => {
+            if !matches!(o.res, Res::Answer { .. }) {
+                bad("allow_answers", format!("an address inside deny_answers but excepted by allow_answers was not returned: {:?}", o.res), l);
+            }
+        }
+    }
+    // knobs every probe shows
+    if o.requests.iter().any(|r| r.2) {
+        bad("edns0", "edns0 = false, but a request carried an OPT record".into(), l);
+    }
+    if !o.requests.is_empty() && o.requests.iter().all(|r| !r.3) {
+        bad("case_randomization", "case_randomization = true, but no request name carried an upper-case letter".into(), l);
+    }
+    if o.requests.iter().any(|r| r.4 != CTOR_PORT) {
+        bad("port", format!("a request went to a port other than {CTOR_PORT}"), l);
+    }
+    if o.binds.iter().any(|b| b.map(|a| a.ip().to_string()) != Some("198.18.0.9".to_string())) {
+        bad("bind_addr", format!("sockets were bound to {:?}, configured 198.18.0.9", o.binds), l);
+    }
+    l.outcome("construction-path-probe");
 }
 
 /// Execute one case on the real pool. Deterministic function of (case, chooser prefix).
@@ -1496,6 +1681,24 @@ fn main() {
     let ctx = Ctx::from_args("C18", "fault_enumeration");
     let thorough = !ctx.quick();
 
+    if let Some((_key, v)) = ctx.replay_case().filter(|(_, v)| v["family"].as_str() == Some("ctor")) {
+        ctx.with_local(|l| {
+            {
+                let leak = |a: &Value| -> Vec<&'static str> { a.as_array().map(|x| x.iter().filter_map(|s| s.as_str()).map(|s| &*Box::leak(s.to_string().into_boxed_str())).collect()).unwrap_or_default() };
+                let p = CtorProbe {
+                    name: Box::leak(v["probe"].as_str().unwrap_or("").to_string().into_boxed_str()),
+                    servers: v["servers"].as_array().map(|a| a.iter().map(|s| (stock::StockSrv::from_json(&s["behaviour"]), s["trust_negative_responses"].as_bool().unwrap_or(true))).collect()).unwrap_or_default(),
+                    vals: (v["timeout_ms"].as_u64().unwrap_or(700), v["connect_timeout_ms"].as_u64().unwrap_or(300), v["attempts"].as_u64().unwrap_or(1) as usize, v["num_concurrent_reqs"].as_u64().unwrap_or(3) as usize),
+                    deny_answers: leak(&v["deny_answers"]),
+                    allow_answers: leak(&v["allow_answers"]),
+                };
+                l.eval();
+                let o = ctor_run(&p);
+                judge_ctor(&p, &o, l);
+            }
+        });
+        ctx.finish(false);
+    }
     if let Some((_key, case)) = ctx.replay_case() {
         let case = Case::from_json(&case);
         ctx.with_local(|l| {
@@ -1534,6 +1737,7 @@ fn main() {
          just before/after every upstream event of the scenario, plus arrival just after completion and a follow-up after quiescence; the different query arrives at t0 or mid-flight. \
          (v) RetryDnsHandle::new(pool, attempts 0..2 (3)) over 1-2 servers each failing k=1..3 (4) times with one of {io-error, silent, busy, SERVFAIL, untrusted NXDOMAIN, reset} before answering (or answering / trusted NXDOMAIN at once): every pool lookup judged as in (i), at most attempts+1 of them, the last one's result returned, responses never retried, io-errors/timeouts retried while attempts remain, total <= (attempts+1) x timeout. \
          (vi) the pool through hickory's STOCK ConnectionProvider (connection_provider.rs) over a simulated RuntimeProvider (scripted connect_tcp / bind_udp, simulated TCP byte streams and UDP sockets speaking real wire format; real UdpClientStream, TcpClientStream::exchange, DnsMultiplexer, DnsExchange inside): timeout T=1000 x connect_timeout C in {400 (C<T), 1000 (C=T), 1600 (C>T)} x 1-2 servers, each {UDP-only: answer after {10, min(C,T)-50, (C+T)/2, T-50, never}; TCP-only and UDP(truncates)+TCP: connect {at once, after C-50, after (C+T)/2, black hole, refused} x answer after the same delays} (quick: one server of a pair from a 6-element partner set) x num_concurrent_reqs {1,2} x strategy {user; thorough also QueryStatistics} x profile {all other knobs default | all off default: case_randomization, EDNS off, port 5353, bind_addr, max_active_requests 2, os_port_selection, avoid_local_udp_ports}; judged by the same oracle against the DOCUMENTED meaning of the two timeouts (connect bounded by connect_timeout, every request by timeout, the lookup by the pool deadline). \
+         (vii) the production construction path Resolver::builder_with_config(ResolverConfig::from_name_servers(..), provider).with_options(ResolverOpts).build() (-> PoolContext, NameServerPool::from_config, RetryDnsHandle) over the simulated RuntimeProvider with EVERY knob at a non-default value and same-typed neighbours at different values, two value sets (timeout 700/900, connect_timeout 300/500, attempts 1/2, num_concurrent_reqs 3/2, UserProvidedOrder, edns0 off, case_randomization on, hosts file off, per-server trust_negative_responses, port 5353, bind_addr, deny_answers/allow_answers) x 8 probes each of which only one knob explains (silent server -> (attempts+1) x timeout; black-holed TCP -> connect_tcp is given connect_timeout; four silent servers -> the first num_concurrent_reqs in configured order asked at t=0; untrusted/trusted NXDOMAIN next to an answer, also with the flags on the other server; denied / excepted answer address; OPT, name case, port, bind address seen by the servers). Not driven: Resolver::builder(provider) / builder_tokio() (read the system's resolv.conf). try_tcp_on_error is read by no code. \
          timeout = 1000 ms virtual. Oracle: completion - start <= timeout; result sound (answer produced by a completed exchange, never TC when TCP is healthy); \
          a definitive result whenever every admissible reading of the documented search procedure (reference walk) reaches one strictly within the budget; \
          untrusted NXDOMAIN never ends the search; truncated UDP is followed by a TCP attempt; overlapping identical callers cause no exchange of their own and get the creator's result. \
@@ -1783,6 +1987,19 @@ fn main() {
         });
     }
 
+    // ---------------- (vii) production construction path
+    {
+        let probes = ctor_probes();
+        ctx.set("construction_path_probes", json!(probes.len()));
+        ctx.par_run(probes.len() as u64, 1, |i, l| {
+            let p = &probes[i as usize];
+            l.eval();
+            let o = ctor_run(p);
+            judge_ctor(p, &o, l);
+            l.nontrivial(fnv_str(&format!("{p:?}")));
+        });
+    }
+
     // ---------------- vacuity
     for class in [
         "answer-after-transport-fault",
@@ -1798,6 +2015,7 @@ fn main() {
         "retry:attempts-used=3",
         "stock:answer-over-real-tcp-stack",
         "stock:answer-over-real-udp-stack",
+        "construction-path-probe",
         "shared-with-creator",
         "waiter-survived-creator-cancel",
         "selftest:replayed-identically",
